@@ -281,6 +281,8 @@ class AccessMixin:
             for k, h in top.calls.items():
                 if k.endswith("*") and text.startswith(k[:-1]):
                     return h            # prefix handler, e.g. "agg.*"
+                if k.startswith("*") and text.endswith(k[1:]) and not text.startswith("self."):
+                    return h            # suffix handler, e.g. "*.read_batch" (calls on some other object)
         return None
 
     def eval_args(self, node, fr):
